@@ -43,7 +43,8 @@ Fixpoint cv_ops (s : cstate) (ops : list sexp) : list sexp :=
       if negb (premises_hold s) then serr 11 :: cv_ops s r else
       match convert_variable s (nat_of_sexp v) (uvec_of_sexp u) (if bool_of_sexp d then DInput else DOutput) (bool_of_sexp mv) with
       | COk (s', n) => L [A 0; snat n; sstate s';
-                          A (free_spec_code s s' (nat_of_sexp v) n (if bool_of_sexp d then DInput else DOutput))] :: cv_ops s' r
+                          A (free_spec_code s s' (nat_of_sexp v) n (if bool_of_sexp d then DInput else DOutput));
+                          sbool (step_ok s (nat_of_sexp v) (if bool_of_sexp d then DInput else DOutput) || Nat.eqb n (nat_of_sexp v))] :: cv_ops s' r
       | CErr e => serr (cerr_code e) :: cv_ops s r
       end
   | _ :: r => serr 99 :: cv_ops s r
